@@ -23,10 +23,15 @@ VERIF = os.path.dirname(os.path.dirname(os.path.abspath(__file__)))
 REPO = os.environ.get("VERIF_REPO", "/repo")
 COQ = os.path.join(VERIF, "coq")
 CACHE = os.path.join(VERIF, ".cache")
-TARGET = os.path.join(CACHE, "target")
+TARGET = os.path.join(CACHE, "target")   # re-pointed below for scratch worktrees
 _ALT = os.path.realpath(REPO) != "/repo"   # a scratch worktree is being checked: keep /verif's own evidence untouched
 REPLAYS = os.path.join(CACHE, "alt", "replays") if _ALT else os.path.join(VERIF, "replays")
 EVIDENCE = os.path.join(CACHE, "alt", "evidence") if _ALT else os.path.join(VERIF, "evidence")
+if _ALT:
+    # one cargo target dir per source tree: the artifacts of /repo and of a scratch worktree
+    # have the same file names and cargo's freshness test is mtime based, so sharing a
+    # target dir between trees can run a stale binary (and alternating trees thrashes)
+    TARGET = os.path.join(CACHE, "alt", "target_" + hashlib.sha1(os.path.realpath(REPO).encode()).hexdigest()[:8])
 GUARD = "pendulum_project_ntpd_rs_verif"
 NCPU = os.cpu_count() or 4
 
@@ -345,7 +350,45 @@ def build_harness(crate, prop, extra_args=""):
     property's harness module, so that an edit which breaks another property's
     harness does not raise an alarm here."""
     os.makedirs(CACHE, exist_ok=True)
+    import fcntl
+    # One harness build at a time, and the test binary is copied to a private path
+    # before the lock is released: the binary's file name is the same for /repo and for
+    # a scratch worktree (VERIF_REPO), so a concurrent check must not be able to replace
+    # it between the build and the run.
+    os.makedirs(TARGET, exist_ok=True)
+    with open(os.path.join(TARGET, "verif_build.lock"), "w") as lockf:
+        fcntl.flock(lockf, fcntl.LOCK_EX)
+        try:
+            return _build_harness_locked(crate, prop, extra_args)
+        finally:
+            fcntl.flock(lockf, fcntl.LOCK_UN)
+
+
+def _tree_stamp():
+    """cargo's freshness test for path packages is mtime based and the artifacts of /repo
+    and of a scratch worktree (VERIF_REPO) have the same file names in the shared target
+    dir, so after a build from another tree cargo can consider a stale binary fresh.
+    When the tree differs from the one built last, the crate roots of this tree are
+    touched (content unchanged) so that every workspace member is rebuilt from it."""
+    stamp = os.path.join(TARGET, "verif_last_tree")
+    cur = os.path.realpath(REPO)
+    try:
+        last = open(stamp).read().strip()
+    except OSError:
+        last = ""
+    if last != cur:
+        for c in list(CRATE_DIRS.values()):
+            for rel in ("src/lib.rs", "src/test.rs"):
+                f = os.path.join(cur, c, rel)
+                if os.path.exists(f):
+                    os.utime(f, None)
+        with open(stamp, "w") as fh:
+            fh.write(cur)
+
+
+def _build_harness_locked(crate, prop, extra_args):
     last = ""
+    _tree_stamp()
     for mode in ("verif_all", "verif_" + prop.lower()):
         env = cargo_env()
         env["RUSTC_WORKSPACE_WRAPPER"] = _wrapper(mode)
@@ -371,7 +414,20 @@ def build_harness(crate, prop, extra_args=""):
                 msgs.append(line)
         last = "\n".join(msgs)[-4000:]
         if rc == 0 and exe:
-            return exe, last, mode
+            d = os.path.join(CACHE, "exe")
+            os.makedirs(d, exist_ok=True)
+            private = os.path.join(d, "%s_%s_%d" % (crate, prop.lower(), os.getpid()))
+            shutil.copy2(exe, private)
+            # keep the directory small: drop private copies older than a day or of dead processes
+            for f in os.listdir(d):
+                fp = os.path.join(d, f)
+                try:
+                    pid = int(f.rsplit("_", 1)[1])
+                    if pid != os.getpid() and not os.path.exists("/proc/%d" % pid):
+                        os.remove(fp)
+                except (ValueError, IndexError, OSError):
+                    pass
+            return private, last, mode
     return None, last, None
 
 
